@@ -247,6 +247,11 @@ MUTANTS = [
     dict(prop="C16", name="ResultDict.__sub__ adds", file=RES_D, old="        return self + (-1) * other", new="        return self + other"),
     dict(prop="C16", name="K__Result.__add__ reversed order", file=RES_K, old="        return self.__class__(data=self.data_list + other.data_list,", new="        return self.__class__(data=other.data_list + self.data_list,"),
     dict(prop="C16", name="Transform.as_dict drops swap_axes", file=PSY, old='for k in ["conj", "factor", "transpose_axes", "swap_axes"]}', new='for k in ["conj", "factor", "transpose_axes"]}'),
+    dict(prop="C08", name="round4: parity rule moved into a shared module-level helper (same rule)", file=DK, expect="ok",
+         old="def get_transform_Inv(name, der=0):", new="def _from_parity(p, der):\n    return transform_odd if (p + der) % 2 == 1 else transform_ident\n\n\ndef get_transform_Inv(name, der=0):",
+         old2="        raise ValueError(f\"parity under inversion unknown for {name}\")\n    if (p + der) % 2 == 1:\n        return transform_odd\n    else:\n        return transform_ident", new2="        raise ValueError(f\"parity under inversion unknown for {name}\")\n    return _from_parity(p, der)"),
+    dict(prop="C01", name="round4: Wigner-Seitz search box without its upper end", file=RVEC, old="        super_vectors_i = np.array([ijk for ijk in iterate3dpm(ws_search_size)]) * self.mp_grid[None, :]",
+         new="        super_vectors_i = np.mgrid[-ws_search_size[0]:ws_search_size[0], -ws_search_size[1]:ws_search_size[1], -ws_search_size[2]:ws_search_size[2]].reshape(3, -1).T * self.mp_grid[None, :]"),
     dict(prop="C16", name="from_npz: inversion transform read for both slots when there are three energy axes", file=RES_E, old="            transformTR=transform_from_dict(res, 'transformTR'),", new="            transformTR=transform_from_dict(res, 'transformTR' if len(energ) < 3 else 'transformInv'),"),
     dict(prop="C16", name="as_dict: rank stored as data.ndim - 1", file=RES_E, old="            rank=self.rank,\n            transformTR=self.transformTR.as_dict(),", new="            rank=self.data.ndim - 1,\n            transformTR=self.transformTR.as_dict(),"),
     dict(prop="C16", name="from_npz: comment not restored", file=RES_E, old="            comment = str(res['comment'])", new="            comment = str(res['comment']).split(chr(10))[0]"),
